@@ -131,6 +131,37 @@ theorem metaName_lf (r t : Str) (h : metaName r = some t) (hm : '\n' ∈ r) : '\
             · simp [hs, hd] at h
       · simp [hq] at h
 
+theorem hscan_lf (e : Bool) (t : Str) (h : hscan e t = true) : '\n' ∉ t := by
+  induction t generalizing e with
+  | nil => simp
+  | cons c cs ih =>
+    unfold hscan at h
+    intro hm
+    cases e with
+    | true =>
+      simp only [if_true] at h
+      split at h
+      · next hc =>
+        have : c ≠ '\n' := by rcases hc with rfl | rfl <;> decide
+        exact ih _ h (by simpa [Ne.symm this] using hm)
+      · simp at h
+    | false =>
+      simp only [Bool.false_eq_true, if_false] at h
+      split at h
+      · next hc => subst hc; exact ih _ h (by simpa using hm)
+      split at h
+      · simp at h
+      · next h1 h2 => exact ih _ h (by simpa [Ne.symm h2] using hm)
+
+theorem helpText_lf (om : Bool) (t : Str) (h : helpText om t = true) : '\n' ∉ t := by
+  unfold helpText at h
+  cases om
+  · simp only [Bool.false_eq_true, if_false] at h; exact hscan_lf false t h
+  · simp only [if_true, beq_iff_eq] at h
+    intro hm
+    have := qscan_lf false (t ++ ['"']) [] h (by simp [hm])
+    simp at this
+
 theorem lit_noLF_help : '\n' ∉ "# HELP ".toList := by decide
 theorem lit_noLF_type : '\n' ∉ "# TYPE ".toList := by decide
 theorem lit_noLF_unit : '\n' ∉ "# UNIT ".toList := by decide
@@ -153,8 +184,10 @@ theorem classify_noLF (om : Bool) (l : Str) (k : Kind) (h : classify om l = some
     cases h2 : metaName r with
     | none => simp [h2] at h
     | some t =>
-      have := metaName_lf r t h2 hr
-      simp [h2, this] at h
+      have hlf := metaName_lf r t h2 hr
+      by_cases hh : helpText om t = true
+      · exact helpText_lf om t hh hlf
+      · simp [h2, hh] at h
   | none =>
     simp only [h1] at h
     cases h2 : stripPrefix "# TYPE ".toList l with
